@@ -367,7 +367,7 @@ Proof.
   destruct (zlookup k m1) as [e1|] eqn:E1; cbn [option_map bind].
   - assert (Hin : In (k, e1) m1) by (apply zlookup_In, E1).
     pose proof (H1 (k, e1) Hin) as Q1. cbn [snd] in Q1. rewrite Q1. cbn [bind].
-    destruct (strict_value p (g1 e1)) as [v1| |]; cbn [bind]; try reflexivity.
+    destruct (strict_value Current (g1 e1)) as [v1| |]; cbn [bind]; try reflexivity.
     apply IH; [exact H1|]. intros kx Hkx. apply H2. right. exact Hkx.
   - apply IH; [exact H1|]. intros kx Hkx. apply H2. right. exact Hkx.
 Qed.
